@@ -7,7 +7,7 @@ serializeOp (C11.ser) and compared by the class's operator== (C11.eq), unless th
 import re
 
 from verif import core
-from verif.tree import walk, walk_fn
+from verif.tree import walk, walk_fn, show, strip, stmt_list
 
 LEVEL = "other"
 
@@ -55,6 +55,151 @@ def own_calls(fn, cls, methods):
         elif k == "OpCall" and n.get("cls") == cls and n.get("m"):
             out.add(n["m"])
     return out
+
+
+def str_lits(n):
+    return [x["v"] for x in walk(n) if x["k"] == "Str"]
+
+
+def units_naming(units, text):
+    """Units whose own source text contains `text` - only selects which units are parsed for a definition, decides nothing."""
+    out = []
+    for u in units:
+        try:
+            if text in open(u, errors="replace").read():
+                out.append(u)
+        except OSError:
+            pass
+    return out
+
+
+def run_split(chk, fx, ser, closure, units):
+    """C11.split: a serializeOp that packs through a helper structure (pack side: `auto split = helper(...)`) and rebuilds
+    members from it on unpack (`if (!serializer.isSerializing()) {...}`) must rebuild what the helper took apart:
+      cover  every field of the helper structure is handed to the serializer;
+      ctor   a field that the unpack side passes to a constructor parameter initialising member m of T must be filled
+             on the pack side from T's accessor of m (or m itself);
+      key    the container key the pack side looks up equals the key the unpack side inserts under."""
+    r = chk.rule("C11.split", "hand-written pack/unpack asymmetries: helper-structure fields are all transferred, constructor arguments on unpack come from the accessor of the member they initialise, look-up key on pack equals insertion key on unpack", floor=6)
+    waived = {w["key"]: w for w in core.load_table("c11_split_waived.json")["waived"]}
+    used = set()
+    sites = []
+    for cls, fs in sorted(ser.items()):
+        if cls not in closure:
+            continue
+        for f in fs:
+            if not f.get("body"):
+                continue
+            unp = [n for n in walk_fn(f) if n["k"] == "If" and "isSerializing" in show(n["cond"])]
+            helpers = []
+            for n in walk_fn(f):
+                if n["k"] == "Decl":
+                    for v in n["vars"]:
+                        i = v.get("init")
+                        if i and i["k"] == "MCall" and i.get("cls") == cls and (v["t"] in fx.recs or ("Opm::" + v["t"]) in fx.recs):
+                            helpers.append((v, i))
+            if unp and helpers:
+                sites.append((cls, f, unp, helpers))
+    if not sites:
+        raise core.AnalysisBroken("no serializeOp with a pack-side helper structure and an unpack block was found (TableManager is one on the pinned tree)")
+    for cls, f, unp, helpers in sites:
+        for v, call in helpers:
+            st = v["t"] if v["t"] in fx.recs else "Opm::" + v["t"]
+            fields = [x["n"] for x in fx.recs[st]["fields"]]
+            hname = call["m"]
+            # -- cover
+            passed = set()
+            for n in walk_fn(f):
+                if n["k"] in ("Call", "OpCall", "MCall") and show(n).startswith("serializer("):
+                    for m in walk(n):
+                        if m["k"] == "Mem" and m.get("cls") == st:
+                            passed.add(m["n"])
+            for fld in fields:
+                key = "%s:%s.%s:cover" % (cls, v["n"], fld)
+                chk.instance(r, key, sample=dict(cls=cls, helper=hname, field=fld, serialized=fld in passed))
+                if fld not in passed:
+                    chk.violation(r, key, "%s::serializeOp does not transfer %s.%s, a field of the structure %s::%s() takes the members apart into" % (cls, v["n"], fld, cls, hname), f["file"], f["l"])
+            # -- helper body and the classes it touches
+            hx = chk.facts(units_naming(units, "::" + hname + "("), files_re="^/repo/opm/", fn_re=r"^%s::%s$" % (re.escape(cls), re.escape(hname)))
+            hfs = [h for h in hx.fns if h["q"] == "%s::%s" % (cls, hname) and h.get("body")]
+            if not hfs:
+                raise core.AnalysisBroken("body of pack-side helper %s::%s not found" % (cls, hname))
+            hf = hfs[0]
+            # pack side: result.F = E, with the look-up key in force
+            pack = {}
+            cur_key = None
+            order = [n for n in walk_fn(hf)]
+            for n in order:
+                if n["k"] == "MCall" and n.get("m") == "find" and str_lits(n):
+                    cur_key = (str_lits(n)[0], n["l"])
+                if n["k"] == "Bin" and n.get("asg") and n["c"][0]["k"] == "Mem" and n["c"][0].get("cls") == st:
+                    pack.setdefault(n["c"][0]["n"], []).append((n["c"][1], cur_key, n["l"]))
+                if n["k"] == "MCall" and n.get("m") in ("insert", "emplace", "push_back") and isinstance(n.get("obj"), dict) and n["obj"]["k"] == "Mem" and n["obj"].get("cls") == st:
+                    pack.setdefault(n["obj"]["n"], []).append((None, cur_key, n["l"]))
+            # unpack side: innermost If blocks that mention split.F
+            for u in unp:
+                for blk in [n for n in walk(u["then"]) if n["k"] == "If"]:
+                    mentioned = {m["n"] for m in walk(blk) if m["k"] == "Mem" and m.get("cls") == st}
+                    if not mentioned:
+                        continue
+                    ins = [n for n in walk(blk["then"]) if n["k"] == "MCall" and n.get("m") in ("insert", "emplace", "insert_or_assign") and str_lits(n)]
+                    ukey = str_lits(ins[0])[0] if ins else None
+                    for fld in sorted(mentioned):
+                        for e, pk, pl in pack.get(fld, []):
+                            key = "%s:%s.%s:key" % (cls, v["n"], fld)
+                            if pk is None or ukey is None:
+                                continue
+                            chk.instance(r, key, sample=dict(cls=cls, field=fld, pack_looks_up=pk[0], unpack_inserts=ukey))
+                            if pk[0] != ukey:
+                                w = waived.get(key)
+                                if w and w.get("pack") == pk[0] and w.get("unpack") == ukey:
+                                    used.add(key)
+                                    chk.info(r, "%s: pack side looks up \"%s\", unpack side inserts \"%s\" - waived: %s" % (key, pk[0], ukey, w["reason"]))
+                                else:
+                                    chk.violation(r, key, "%s::%s() takes the container \"%s\" apart into %s.%s but serializeOp rebuilds it under \"%s\": the special path never pairs up and the objects travel as their base type" % (cls, hname, pk[0], v["n"], fld, ukey), hf["file"], pk[1])
+                    # constructor arguments
+                    for n in walk(blk["then"]):
+                        if n["k"] == "Ctor" and n.get("fn") and n.get("a"):
+                            for ai, a in enumerate(n["a"]):
+                                a0 = strip(a)
+                                if a0["k"] == "Mem" and a0.get("cls") == st:
+                                    fld = a0["n"]
+                                    T = n["t"].replace("const ", "").strip()
+                                    tx = chk.facts(units_naming(units, T.split("::")[-1] + "::"), files_re="^/repo/opm/", fn_re=r"^%s::" % re.escape(T))
+                                    ctors = [c for c in tx.fns if c["q"] == n["fn"] and c.get("ctor") and len(c.get("params", [])) == len(n["a"]) and c.get("inits") is not None and not c.get("light")]
+                                    key = "%s:%s.%s:ctor" % (cls, v["n"], fld)
+                                    if not ctors:
+                                        raise core.AnalysisBroken("constructor %s used on the unpack side of %s::serializeOp not found" % (n["fn"], cls))
+                                    pname = ctors[0]["params"][ai]["n"]
+                                    members = [i["member"] for i in ctors[0]["inits"] if strip(i["init"]).get("k") == "Ref" and strip(i["init"]).get("n") == pname]
+                                    if len(members) != 1:
+                                        chk.info(r, "%s: parameter %s of %s does not initialise exactly one member; not paired" % (key, pname, n["fn"]))
+                                        continue
+                                    mem = members[0]
+                                    for e, pk, pl in pack.get(fld, []):
+                                        if e is None:
+                                            continue
+                                        e0 = strip(e)
+                                        src = None
+                                        if e0["k"] == "Mem" and e0.get("cls") == T:
+                                            src = e0["n"]
+                                        elif e0["k"] == "MCall" and e0.get("cls") == T:
+                                            acc = [a_ for a_ in tx.fns if a_["q"] == e0["fn"] and a_.get("body")]
+                                            if acc:
+                                                rets = [x for x in walk_fn(acc[0]) if x["k"] == "Return"]
+                                                if len(rets) == 1 and rets[0].get("e") is not None:
+                                                    rv = strip(rets[0]["e"])
+                                                    if rv["k"] == "Mem" and rv.get("cls") == T:
+                                                        src = rv["n"]
+                                                    else:
+                                                        src = "<%s>" % show(rv)
+                                        chk.instance(r, key, sample=dict(cls=cls, field=fld, unpack_passes_to="%s(%s) -> %s" % (n["fn"], pname, mem), pack_reads=show(e0)[:80], which_is=src))
+                                        if src != mem:
+                                            chk.violation(r, key, "%s.%s is passed on unpack to %s, whose parameter `%s` initialises %s::%s, but %s::%s() fills it from `%s` (%s): the rebuilt object differs from the packed one whenever the two quantities differ" % (
+                                                v["n"], fld, n["fn"], pname, T, mem, cls, hname, show(e0)[:80], src or "not that member"), hf["file"], pl)
+    for k in waived:
+        if k not in used:
+            chk.info(r, "waiver %s in tables/c11_split_waived.json not needed on this tree" % k)
 
 
 def run(chk):
@@ -201,6 +346,8 @@ def run(chk):
                 if f["n"] not in E and f["n"] in S:
                     chk.info(r_eq, "%s is transferred but not compared by operator== (weakens the test oracle; not a violation of the property)" % key)
     chk.extra["classes_out_of_scope"] = n_out
+
+    run_split(chk, fx, ser, closure, units)
 
     # stale exemptions are themselves reported (an exception that no longer matches anything)
     for k, e in exempt.items():
